@@ -53,7 +53,7 @@ PROPS["C07"] = dict(
         Job("asan-xorb_rt", engine="xorb_rt", workers=(8, 8), cases=(300, 300), time_s=(300, 300), extra_workers_arg=True, args={"max-chunks": 8192, "bg4-max-len": 4100}, **ASAN),
     ],
     gates=dict(evaluations=(300, 10000), distinct=(100, 400),
-               counters={"ranges_checked": (10000, 300000), "bg4_lengths_checked": (4101, 20001), "xorbs_with_incompressible_fallback": (50, 1000), "xorbs_with_more_than_1152_chunks": (10, 200), "auto_chunks_grouping_predicted_stored_raw": (50, 2000), "auto_chunks_grouping_predicted_stored_grouped": (50, 2000), "miri_bg4_lengths": (100, 1000), "miri_xorbs": (2, 60)}),
+               counters={"ranges_checked": (10000, 300000), "bg4_lengths_checked": (4101, 20001), "xorbs_with_incompressible_fallback": (50, 1000), "xorbs_with_more_than_1152_chunks": (10, 200), "auto_chunks_grouping_predicted_stored_raw": (50, 2000), "legacy_footer_xorbs_read_back": (150, 5000), "auto_chunks_grouping_predicted_stored_grouped": (50, 2000), "miri_bg4_lengths": (100, 1000), "miri_xorbs": (2, 60)}),
     exhaustive_note="bg4 split/regroup (all variants) for every input length 0..bg4-max-len",
 )
 
